@@ -80,6 +80,44 @@ def run_variant(v, tier="quick"):
         shutil.rmtree(tmp, ignore_errors=True)
 
 
+def alpha_control(props):
+    """behaviour-preserving control: every local variable of every function renamed -> every check silent, same instance counts"""
+    tmp = pathlib.Path(tempfile.mkdtemp(prefix="nvsa-alpha-"))
+    try:
+        r = subprocess.run([sys.executable, str(VERIF / "tools" / "alpha_rename.py"), str(tmp / "tree")], capture_output=True, text=True, timeout=300)
+        if r.returncode != 0:
+            return [f"alpha_rename failed: {r.stdout[-300:]} {r.stderr[-300:]}"]
+        all_props = [p.stem for p in sorted((VERIF / "checks").glob("C[0-9][0-9].py"))]
+        wanted = [p for p in all_props if not props or p in props]
+        problems = []
+
+        def one(prop):
+            out = []
+            counts = {}
+            for label, root in (("tree", REPO), ("alpha", tmp / "tree")):
+                ev = tmp / f"ev-{label}"
+                rr = subprocess.run([sys.executable, str(VERIF / "check"), prop, "--root", str(root), "--evidence-dir", str(ev)],
+                                    capture_output=True, text=True, timeout=900)
+                if label == "alpha" and rr.returncode != 0:
+                    lines = [ln for ln in (rr.stdout + rr.stderr).splitlines() if "violated" in ln or "ANALYSIS" in ln]
+                    out.append(f"{prop}: alarm on the alpha-renamed tree (rc={rr.returncode}): " + " | ".join(x.strip()[:200] for x in lines[:3]))
+                try:
+                    d = json.loads((ev / f"{prop}.json").read_text())
+                    counts[label] = {k: v["obligations"] for k, v in d["coverage"]["rules"].items()}
+                except Exception:
+                    counts[label] = None
+            if counts.get("tree") != counts.get("alpha"):
+                out.append(f"{prop}: rule instance counts differ between the tree and its alpha-renamed copy: {counts}")
+            return out
+
+        with ThreadPoolExecutor(max_workers=16) as ex:
+            for res in ex.map(one, wanted):
+                problems.extend(res)
+        return problems
+    finally:
+        shutil.rmtree(tmp, ignore_errors=True)
+
+
 def main(props, jobs=16):
     t0 = time.time()
     sys.path.insert(0, str(VERIF))
@@ -94,14 +132,19 @@ def main(props, jobs=16):
             mark = {"OK": "ok  ", "FAIL": "FAIL", "SETUP": "SETUP"}[st]
             print(f"{mark} {v['property']} {v['kind']:6s} {v['id']}: {msg if st != 'OK' else msg}")
     bad = [r for r in results if r[1] != "OK"]
+    alpha = alpha_control(props)
+    for a in alpha:
+        print(f"FAIL alpha-rename control: {a}")
+    if not alpha:
+        print("ok   alpha-rename control: all checks silent on the tree with every local variable renamed; instance counts identical")
     nb = sum(1 for r in results if r[0]["kind"] == "break")
     print(f"self-test: {len(results)} variants ({nb} breaking, {len(results) - nb} benign), {len(bad)} failed, {time.time() - t0:.1f}s")
     summary = {
         "variants": len(results),
         "breaking": nb,
         "benign": len(results) - nb,
-        "failed": [f"{r[0]['property']}:{r[0]['id']}" for r in bad],
+        "failed": [f"{r[0]['property']}:{r[0]['id']}" for r in bad] + [f"alpha:{a[:80]}" for a in alpha],
         "wall_s": round(time.time() - t0, 1),
     }
     (VERIF / "selftest" / "last_result.json").write_text(json.dumps(summary, indent=1) + "\n")
-    return 2 if bad else 0
+    return 2 if (bad or alpha) else 0
